@@ -4,10 +4,10 @@ package tls
 
 import "errors"
 
-// VerifSendKeyUpdate makes c send a TLS 1.3 KeyUpdate message (with or without
+// VerifC32SendKeyUpdate makes c send a TLS 1.3 KeyUpdate message (with or without
 // update_requested) and then switch its own sending keys, as a conforming peer
 // does. Verification hook for post-handshake scenarios; add-only.
-func VerifSendKeyUpdate(c *Conn, requested bool) error {
+func VerifC32SendKeyUpdate(c *Conn, requested bool) error {
 	c.out.Lock()
 	defer c.out.Unlock()
 	if c.vers != VersionTLS13 {
@@ -25,9 +25,9 @@ func VerifSendKeyUpdate(c *Conn, requested bool) error {
 	return nil
 }
 
-// VerifSendHandshakeBytes makes c send raw bytes in handshake records under
+// VerifC32SendHandshakeBytes makes c send raw bytes in handshake records under
 // its current write keys (a post-handshake message of the harness's choosing).
-func VerifSendHandshakeBytes(c *Conn, raw []byte) error {
+func VerifC32SendHandshakeBytes(c *Conn, raw []byte) error {
 	c.out.Lock()
 	defer c.out.Unlock()
 	_, err := c.writeRecordLocked(recordTypeHandshake, raw)
